@@ -38,8 +38,8 @@ Print Assumptions C08_titan_base.
 
 (* the 1024-byte limit: a line of n bytes (without CRLF) is admitted exactly when n + 2 <= 1024 *)
 Theorem C08_limit : forall l rest,
-  has_crlf l = false -> (forall a, l <> a ++ [13]) ->
-  Spec.ServerTrace.request_line (l ++ [13; 10] ++ rest) =
+  has_crlf l = false -> (forall a, l <> a ++ [13%N]) ->
+  Spec.ServerTrace.request_line (l ++ [13%N; 10%N] ++ rest) =
     if (1024 <? N.of_nat (length l) + 2)%N then Spec.ServerTrace.LTooBig
     else match Prelude.Utf8.decode l with
          | None => Spec.ServerTrace.LBadUtf8
